@@ -54,13 +54,26 @@ def run_checks(patch, checks, tier):
         if rc:
             return {"apply_failed": out}
         results = {}
+        t0 = time.time()
+        rc, out = sh("./check %s --tier %s" % (",".join(checks), tier), cwd=VERIF, env={"VERIF_REPO": scratch, "VERIF_EVIDENCE_DIR": scratch + "-evidence"}, timeout=7200)
+        cur = None
+        whys = {}
+        nviol = {}
+        for l in out.splitlines():
+            if l.startswith("VIOLATION property="):
+                cur = l.split("property=")[1].split()[0]
+                nviol[cur] = nviol.get(cur, 0) + 1
+            elif l.strip().startswith("why:") and cur and cur not in whys:
+                whys[cur] = l.strip()[:300]
+            elif l.startswith("RESULT property="):
+                pid = l.split("property=")[1].split()[0]
+                results[pid] = {"rc": int(l.rsplit("rc=", 1)[1]), "violations": nviol.get(pid, 0), "first_why": whys.get(pid, ""), "machinery": []}
+            elif l.startswith("MACHINERY-ERROR: property="):
+                pid = l.split("property=")[1].split()[0]
+                results.setdefault(pid, {})["machinery"] = [l[:300]]
         for c in checks:
-            t0 = time.time()
-            rc, out = sh("./check %s --tier %s" % (c, tier), cwd=VERIF, env={"VERIF_REPO": scratch, "VERIF_EVIDENCE_DIR": scratch + "-evidence"})
-            viol = [l for l in out.splitlines() if l.startswith("VIOLATION")]
-            results[c] = {"rc": rc, "violations": len(viol), "s": round(time.time() - t0, 1),
-                          "first_why": next((l.strip() for l in out.splitlines() if l.strip().startswith("why:")), "")[:300],
-                          "machinery": [l for l in out.splitlines() if l.startswith("MACHINERY")][:1]}
+            results.setdefault(c, {"rc": 2, "violations": 0, "first_why": "", "machinery": ["no RESULT line: " + out[-300:]]})
+        results["_wall_s"] = round(time.time() - t0, 1)
         return results
     finally:
         sh("git -C /repo worktree remove --force %s" % scratch)
@@ -92,6 +105,8 @@ def main(argv):
 
         checks = sorted(props.CHECKS)
     results = run_checks(os.path.join(dest, "patch.diff"), checks, tier)
+    wall = results.pop("_wall_s", None)
+    meta["check_wall_s"] = wall
     detected = sorted(c for c, r in results.items() if isinstance(r, dict) and r.get("rc") == 1)
     broken = sorted(c for c, r in results.items() if isinstance(r, dict) and r.get("rc") not in (0, 1))
     meta.update({"breaks": meta.get("property"), "confirmed": conf, "ran": {"tier": tier, "checks": results},
